@@ -2581,9 +2581,19 @@ namespace bloch::compiler {
         if (node.collection)
             node.collection->accept(*this);
         if (node.index) {
-            if (inferTypeInfo(node.index.get()).value == ValueType::Void) {
+            TypeInfo indexType = inferTypeInfo(node.index.get());
+            if (indexType.value == ValueType::Void) {
                 throw BlochError(ErrorCategory::Semantic, node.line, node.column,
                                  "the result of a 'void' call cannot be used as an index");
+            }
+            // as for element assignment: an index of known type must be an integer
+            const bool known = indexType.value != ValueType::Unknown || !indexType.className.empty();
+            if (known && !indexType.isTypeParam &&
+                !(indexType.className.empty() &&
+                  (indexType.value == ValueType::Int || indexType.value == ValueType::Long ||
+                   indexType.value == ValueType::Bit))) {
+                throw BlochError(ErrorCategory::Semantic, node.line, node.column,
+                                 "array index must be of type 'int' or 'long'");
             }
             node.index->accept(*this);
         }
